@@ -239,12 +239,30 @@ def binding_selftest(chk: Check, trace_module: str, traces: List[Dict[str, Any]]
         for _ in range(3):
             m = _copy.deepcopy(t)
             e = m["ev"][rng.randrange(len(ev))]
-            keys = [k for k, v in e.items() if k != "ev" and isinstance(v, (bool, int, str))]
-            if not keys:
+
+            def leaves(o, acc):
+                if isinstance(o, dict):
+                    for kk, vv in o.items():
+                        if kk == "ev":
+                            continue
+                        if isinstance(vv, (bool, int, str)):
+                            acc.append((o, kk))
+                        elif isinstance(vv, (dict, list)):
+                            leaves(vv, acc)
+                elif isinstance(o, list):
+                    for i, vv in enumerate(o):
+                        if isinstance(vv, (bool, int, str)):
+                            acc.append((o, i))
+                        elif isinstance(vv, (dict, list)):
+                            leaves(vv, acc)
+                return acc
+
+            cand = leaves(e, [])
+            if not cand:
                 continue
-            k = rng.choice(keys)
-            v = e[k]
-            e[k] = (not v) if isinstance(v, bool) else (v + 1 if isinstance(v, int) else v + "_zz")
+            box, k = rng.choice(cand)
+            v = box[k]
+            box[k] = (not v) if isinstance(v, bool) else (v + 1 if isinstance(v, int) else v + "_zz")
             mutants.append({"cfg": m["cfg"], "ev": m["ev"]})
             kinds.append("flip")
         # (b) drop one event
@@ -260,12 +278,25 @@ def binding_selftest(chk: Check, trace_module: str, traces: List[Dict[str, Any]]
                 mutants.append({"cfg": m["cfg"], "ev": m["ev"]})
                 kinds.append("swap")
                 break
-    r = _tlc.validate(trace_module, mutants)
+    # one JVM per corrupted trace: a corruption may make TLC fail to *evaluate* the trace spec (e.g. an index out
+    # of range) - that is a rejection of that trace, and must not take the others down with it
+    from concurrent.futures import ThreadPoolExecutor
+
+    def one(m):
+        try:
+            rr = _tlc.validate(trace_module, [m], chunk=1, parallel=1)
+            reached, length = rr["results"][0]
+            return reached != length + 1
+        except _tlc.TLCError:
+            return True
+
+    with ThreadPoolExecutor(max_workers=8) as ex:
+        verdicts = list(ex.map(one, mutants))
     rej: Dict[str, List[int]] = {}
-    for k, (reached, length) in zip(kinds, r["results"]):
+    for k, rejected in zip(kinds, verdicts):
         rej.setdefault(k, [0, 0])
         rej[k][1] += 1
-        if reached != length + 1:
+        if rejected:
             rej[k][0] += 1
     chk.cov.setdefault("binding_selftest", {})[trace_module] = {k: f"{a}/{b} corrupted traces rejected" for k, (a, b) in rej.items()}
     if sum(a for a, b in rej.values()) == 0:
